@@ -525,6 +525,53 @@ def main():
         else:
             chk.nontrivial_case('str:' + sv)
         lex_texts.append('print "{}" set "{}" zone 1'.format(sv, sv))
+    # a string is a value wherever a value may stand, also as the argument AFTER another argument
+    # (a negation, a negative number, a name, a braced expression or another string): what the
+    # string says — an operator, say — must not make it part of the argument before it
+    arg_templates = [
+        'define show with flag label begin print flag println label end\nassign a 1\n[show not a "{S}"]\n',
+        'define show with flag label begin print flag println label end\nassign a 1\nshow not a "{S}"\n',
+        'define show with flag label begin print flag println label end\nassign a 1\nshow a "{S}"\n',
+        'define show with flag label begin print flag println label end\nassign a 1\nshow -5 "{S}"\n',
+        'define show with flag label begin print flag println label end\nshow 5 "{S}"\n',
+        'define show with flag label begin print flag println label end\nshow {{2 * 3}} "{S}"\n',
+        'define show with flag label begin print flag println label end\nshow "{S}" "{S}"\n',
+        'define show with flag label begin print flag println label end\nshow [round 2.5] "{S}"\n',
+        'assign a 1 assign b 0\nprintf "{{}} {{}} {{}}" not a "{S}" not b\n',
+        'assign a 1\nprintf "{{}} {{}} {{}}" a "{S}" -5\n',
+        'assign a 1\nprint a print "{S}" print {{not a}} print "{S}" println -5\n',
+        'assign a 1 assign s "{S}"\nprint {{not a}} print s\n',
+    ]
+    arg_strings = ['and', 'or', 'not', '+', '-', '*', '/', '%', '^', '<', '>', '<=', '>=', '==', '!=',
+                   '(', ')', '{', '}', '[', ']', 'And', 'x', '&', '+ ', '=', '#', 'hue', 'end', 'begin',
+                   'with', 'a', 'show', '5', '-5', '12:30', ''] + strings[:12]
+    for tpl in arg_templates:
+        ref = runimpl.run_script(tpl.format(S='QQ'), [])
+        ref_outs = [e[1] for e in ref.events if e[0] == 'O'] if ref.compiled else None
+        chk.count()
+        if ref_outs is None or ref.fault is not None:
+            chk.violation('string-content-not-preserved', 'argument template rejected: ' +
+                          (ref.errors.strip()[:100] if not ref.compiled else str(ref.fault)),
+                          {'script': tpl.format(S='QQ')})
+            continue
+        for sv in arg_strings:
+            if '{}' in tpl.replace('{{}}', '') and False:
+                continue
+            script = tpl.format(S=sv)
+            res = runimpl.run_script(script, [])
+            stats['strings_as_arguments'] = stats.get('strings_as_arguments', 0) + 1
+            chk.count()
+            outs = [e[1] for e in res.events if e[0] == 'O'] if res.compiled else None
+            want = [o.replace('QQ', sv) if isinstance(o, str) else o for o in ref_outs]
+            if outs != want or res.fault is not None:
+                chk.violation('string-content-not-preserved',
+                              'string {!r} as an argument after another argument: {}'.format(
+                                  sv, ('rejected: ' + res.errors.strip()[:80]) if not res.compiled
+                                  else 'printed {!r} instead of {!r} (fault {})'.format(outs, want, res.fault)),
+                              {'script': script})
+            else:
+                chk.nontrivial_case('argstr:' + str(arg_templates.index(tpl)) + ':' + sv)
+            lex_texts.append(script.replace('\n', ' '))
     # two strings on one line, the first ending in a backslash (the lexer's undocumented \" escape)
     res = runimpl.run_script('print "a\\" print "b"\n', [])
     chk.count()
